@@ -309,6 +309,87 @@ pub fn check_unsafe(c: &UnsafeCase, acc: &mut Acc, record: bool) -> Verdict {
     }
 }
 
+// ------------------------------------------------------------------------------------------------ reads stay inside the buffer
+
+#[derive(Debug, Clone, Serialize, Deserialize)]
+pub struct SurroundCase {
+    pub ty: Ty,
+    pub val: Val,
+    pub ops: Vec<TOp>,
+    pub raw: Option<Vec<u8>>,
+}
+
+/// the input placed inside a larger buffer: 32 bytes before, 512 bytes after, filled with `canary`
+fn surrounded(input: &[u8], canary: u8) -> (Vec<u8>, std::ops::Range<usize>) {
+    let mut b = vec![canary; 32];
+    b.extend_from_slice(input);
+    let r = 32..32 + input.len();
+    b.extend(std::iter::repeat(canary).take(512));
+    (b, r)
+}
+
+fn surround_strategy() -> BoxedStrategy<SurroundCase> {
+    let cfg = ValCfg { max_len: 4, long: false, ..ValCfg::default() };
+    // run-time struct declarations at some version of a generated history (the tolerant client needs named fields)
+    let decl = (vmodel::declgen::history_spec_strategy(5, 6), any::<u16>()).prop_map(|(spec, vsel)| {
+        let versions = vmodel::declgen::build_history(&spec, &vmodel::declgen::dynamic_menu(true));
+        let i = vmodel::gen::pick(vsel, versions.len());
+        Ty::Adt(vmodel::declgen::struct_decl(&format!("DynW{:08x}v{i}", hash_json(&spec) as u32), &versions[i]))
+    });
+    (decl, tops_strategy(), prop_oneof![4 => Just(None), 1 => proptest::collection::vec(any::<u8>(), 0..40).prop_map(Some)])
+        .prop_flat_map(move |(ty, ops, raw)| (val_strategy(&ty, cfg), Just(ty), Just(ops), Just(raw)))
+        .prop_map(|(val, ty, ops, raw)| SurroundCase { ty, val, ops, raw })
+        .boxed()
+}
+
+/// Whatever a client does through the safe API — including carrying on with the same AdtDeserializer after a field
+/// failed — the outcome must be a function of the supplied bytes only. The same input is decoded inside two
+/// different surroundings (canary 0x53 / 0xAC before and after it): any read outside the buffer shows up as a
+/// difference (or kills the process, which the supervisor reports).
+pub fn check_surround(c: &SurroundCase, acc: &mut Acc, record: bool) -> Verdict {
+    let input = match &c.raw {
+        Some(r) => r.clone(),
+        None => match ref_encode(&c.ty, &c.val) {
+            Ok(f) => apply(&f, &c.ops, None).0,
+            Err(_) => return Verdict::Skip,
+        },
+    };
+    if let Err(vmodel::refcodec::DecErr::ZeroWidthFlood(_)) = ref_decode(&c.ty, &input) {
+        return Verdict::Skip;
+    }
+    let run = |canary: u8| -> (String, String) {
+        let (buf, r) = surrounded(&input, canary);
+        let slice = &buf[r];
+        let plain = match crate::run::guarded(|| vcat::decode(&c.ty, slice)) {
+            Ok(Ok(v)) => format!("Ok {:?}", canon(&c.ty, &v)),
+            Ok(Err(e)) => format!("Err {}", e.kind),
+            Err(_) => "panic".to_string(),
+        };
+        let tolerant = match crate::run::guarded(|| vcat::decode_tolerantly(&c.ty, slice)) {
+            Ok(v) => v.join(" | "),
+            // a panic is not a memory-safety matter (and not C05's either: the client ignored an error)
+            Err(_) => "panic".to_string(),
+        };
+        (plain, tolerant)
+    };
+    let a = run(0x53);
+    let b = run(0xAC);
+    if record {
+        let errs = a.1.matches("=Err").count();
+        let oks = a.1.matches("=Ok").count();
+        let class = if errs > 0 && oks > 0 { "tolerant client: some fields fail, later ones read" } else if errs > 0 { "tolerant client: fields fail" } else { "tolerant client: all fields read" };
+        acc.case(class, hash_json(&(&c.ty, &input)), errs > 0 && a.1.find("=Err").map(|i| a.1[i..].contains("=Ok")).unwrap_or(false));
+        if errs > 0 && oks > 0 && acc.wants_sample(class) {
+            acc.sample(class, json!({"type": c.ty.render(), "input_hex": hex(&input[..input.len().min(48)]), "fields": a.1.chars().take(300).collect::<String>()}));
+        }
+    }
+    if a != b {
+        let which = if a.0 != b.0 { format!("deserialize: {} vs {}", a.0.chars().take(200).collect::<String>(), b.0.chars().take(200).collect::<String>()) } else { format!("field-by-field reading that carries on after an error: {} vs {}", a.1.chars().take(300).collect::<String>(), b.1.chars().take(300).collect::<String>()) };
+        return Verdict::Fail(format!("decoding the same {} input bytes ({}) as {} gives different results depending on what lies around the buffer — bytes outside the supplied slice were read. {which}", input.len(), hex(&input[..input.len().min(64)]), c.ty.render()));
+    }
+    Verdict::Pass
+}
+
 pub fn run_c19(cx: &Cx) -> PropResult {
     let per_shard = cx.n(40_000, 1_000_000);
     let lines = std::sync::Mutex::new(Vec::new());
@@ -318,12 +399,16 @@ pub fn run_c19(cx: &Cx) -> PropResult {
             return;
         }
         let strat = unsafe_case_strategy();
-        drive(tag_seed(derive_seed(cx.seed, cx.prop, shard as u64, 0), 0), &strat, per_shard, acc, &|c: &UnsafeCase| to_json(c), &mut |c, a, r| check_unsafe(c, a, r));
+        if drive(tag_seed(derive_seed(cx.seed, cx.prop, shard as u64, 0), 0), &strat, per_shard, acc, &|c: &UnsafeCase| to_json(c), &mut |c, a, r| check_unsafe(c, a, r)) {
+            return;
+        }
+        let strat = surround_strategy();
+        drive(tag_seed(derive_seed(cx.seed, cx.prop, shard as u64, 1), 1), &strat, per_shard / 2, acc, &|c: &SurroundCase| to_json(&json!({"Surround": c})), &mut |c, a, r| check_surround(c, a, r));
     });
     let mut r = PropResult::new(
         acc,
         "exploration",
-        "(1) client programs: witnesses from a template grammar — API path (State::store_ref -> get_ref_by_id, SerializationContext::store_ref_or_object -> get_ref_by_id, store_ref -> DeserializationContext::try_read_ref, read_bytes on SliceInput / OwnedInput / DeserializationContext, a table reference outliving its context) x how the referent dies (inner scope ends, drop, moved into a callee, Vec reallocation / second mutable use) x referent type (String, Vec<u8>, Box<u64>, Rc<String>) — each a crate root with #![forbid(unsafe_code)] compiled by rustc against the freshly built desert rlib; every witness has a control twin that keeps the referent alive and must compile. Oracle: the witness is rejected with a borrow/lifetime error; a witness that compiles refutes the property. (2) inputs to the decoding paths written with unsafe code ([T; N] for T in u8, u32, String, Vec<u16>, Option<Box<u64>>, i8, bool, () and N in 0, 1, 3, 16, 17, 33; Vec<u8> / Vec<T>; Bytes; BigInt): valid, count-mismatched, truncated and tampered encodings; every Ok must equal the reference decoder's value (content that does not come from the input is caught without a sanitizer); the thorough tier repeats this corpus under AddressSanitizer (libFuzzer target) and Miri. Non-trivial = witness whose control compiles; input whose count / length differs from what the target expects.",
+        "(1) client programs: witnesses from a template grammar — API path (State::store_ref -> get_ref_by_id, SerializationContext::store_ref_or_object -> get_ref_by_id, store_ref -> DeserializationContext::try_read_ref, read_bytes on SliceInput / OwnedInput / DeserializationContext, a table reference outliving its context) x how the referent dies (inner scope ends, drop, moved into a callee, Vec reallocation / second mutable use) x referent type (String, Vec<u8>, Box<u64>, Rc<String>) — each a crate root with #![forbid(unsafe_code)] compiled by rustc against the freshly built desert rlib; every witness has a control twin that keeps the referent alive and must compile. Oracle: the witness is rejected with a borrow/lifetime error; a witness that compiles refutes the property. (2) inputs to the decoding paths written with unsafe code ([T; N] for T in u8, u32, String, Vec<u16>, Option<Box<u64>>, i8, bool, () and N in 0, 1, 3, 16, 17, 33; Vec<u8> / Vec<T>; Bytes; BigInt): valid, count-mismatched, truncated and tampered encodings; every Ok must equal the reference decoder's value (content that does not come from the input is caught without a sanitizer); the thorough tier repeats this corpus under AddressSanitizer (libFuzzer target) and Miri. (3) reads stay inside the supplied buffer: tampered and raw inputs for run-time struct declarations are decoded — by deserialize and by a tolerant client that keeps reading fields with the same AdtDeserializer after a field failed — inside two different surroundings (canary bytes 0x53 / 0xAC before and after the slice); the outcomes must be identical (a process killed by an out-of-range access is reported by the supervisor). Non-trivial = witness whose control compiles; input whose count / length differs from what the target expects.",
     );
     r.lines = lines.into_inner().unwrap();
     r.assumptions = vec![
@@ -346,6 +431,19 @@ pub fn replay_c19(case: &Value) -> Verdict {
             Err(e) => Verdict::Fail(e),
         };
     }
+    if let Some(sc) = case.get("Surround") {
+        let c: SurroundCase = serde_json::from_value(sc.clone()).expect("replay case");
+        return check_surround(&c, &mut Acc::new(), false);
+    }
     let c: UnsafeCase = serde_json::from_value(case.clone()).expect("replay case");
     check_unsafe(&c, &mut Acc::new(), false)
+}
+
+pub fn regen_c19(cx: &Cx, shard: usize, stream: u64, index: u64) -> Option<Value> {
+    use crate::run::regen;
+    match stream {
+        0 => Some(to_json(&regen(tag_seed(derive_seed(cx.seed, cx.prop, shard as u64, 0), 0), &unsafe_case_strategy(), index))),
+        1 => Some(json!({"Surround": regen(tag_seed(derive_seed(cx.seed, cx.prop, shard as u64, 1), 1), &surround_strategy(), index)})),
+        _ => None,
+    }
 }
